@@ -612,7 +612,7 @@ for reg, rn in ((0, 'npc'), (1, 'eqr'), (2, 'spc')):
                           tiers=(Q if (reg == 1 or not image) else T), timeout=3600, mem_gb=6, unwind=3, stubs=_LIBM,
                           inputs=[('lon', 'f64'), ('lat', 'f64')], replay='c17_native', covers=['second turn', 'pole or equator'],
                           domain='proj: every double lon %s in [-25.2, 25.2], every lat of the %s region: range, sign%s' % ('< 0' if neg else '>= 0', rn, ', image facets' if image else '')))
-        _c17.append(H('c17_proj_formula_' + sfx, 'k_c17_proj_formula(%d, %s);' % (reg, 'true' if neg else 'false'), tiers=Q, timeout=2400, mem_gb=6, unwind=3,
+        _c17.append(H('c17_proj_formula_' + sfx, 'k_c17_proj_formula(%d, %s);' % (reg, 'true' if neg else 'false'), tiers=(Q if reg == 1 else T), timeout=(2400 if reg == 1 else 5400), mem_gb=6, unwind=3,
                       stubs=_LIBM + [('crate::pm1_offset_decompose', 'crate::verif_c17::stub_pm1_offset_decompose')], inputs=[('lon', 'f64'), ('lat', 'f64')], replay='c17_native',
                       covers=['second turn'] + (['polar product clause reached'] if reg != 1 else []),
                       domain='proj, %s region, lon %s: x, y are the Calabretta-Roukema expressions of (pm1, offset, lat) for ANY (pm1, offset) allowed by the decomposition contract' % (rn, '< 0' if neg else '>= 0')))
@@ -740,36 +740,40 @@ PROPS['C11'] = dict(
 # ------------------------------------------------------------------------------------------- C03 (plane cut)
 _PLANE_CUT_N = lambda mod: [('crate::proj', 'crate::nested::%s::stub_proj' % mod), ('crate::unproj', 'crate::nested::%s::stub_unproj' % mod),
                             ('crate::nested::Layer::d0h_lh_in_d0c', 'crate::nested::%s::stub_d0h_lh_plane' % mod)]
+_C03_INTERIOR = lambda: _PLANE_CUT_N('verif_c03') + [('crate::nested::Layer::hash_with_dxdy_in_base_cell_frame', 'crate::nested::verif_c03::stub_border_path')]
 def _c03_us(d):
-    return {'verif_common::*': max(6, d + 1), 'nested::verif_c03::*': 6, 'compass_point::*': 6, 'nested::Layer::vertices_map#*': 6}
+    return {'verif_common::*': max(6, d + 1), 'nested::verif_c03::*': 6, 'compass_point::*': 6, 'nested::Layer::vertices_map#*': 6,
+            'nested::Layer::path_along_cell_side_internal#*': 6, 'nested::Layer::path_along_cell_edge#*': 6, 'nested::Layer::grid#*': 6}
 
 
 _c03 = []
 for _d in range(30):
-    tq = Q if _d in (0, 1, 2, 29) else T
     for part, pn in ((0, 'centre'), (1, 'offset'), (2, 'vertices')):
-        _c03.append(H('c03_%s_d%d' % (pn, _d), 'k_c03_cell(%d, %d);' % (_d, part), tiers=tq, timeout=2400, mem_gb=8, unwind=3, unwindset=_c03_us(_d), stubs=_PLANE_CUT_N('verif_c03'),
+        # the offset round trip (sph_coo then hash_with_dxdy of an arbitrary interior offset) needs real-arithmetic reasoning on the
+        # scaled coordinates: 25+ min at depth 0, thorough tier only
+        tq = (Q if _d in (0, 1, 2, 29) else T) if part != 1 else (T if _d in (0, 1) else X)
+        _c03.append(H('c03_%s_d%d' % (pn, _d), 'k_c03_cell(%d, %d);' % (_d, part), tiers=tq, timeout=2400, mem_gb=8, unwind=3, unwindset=_c03_us(_d), stubs=_C03_INTERIOR(),
                       inputs=[('h', 'u64'), ('dxk', 'u32'), ('dyk', 'u32')], replay='c03_cell', replay_const={'depth': _d},
                       covers=['cell at the north pole', 'west half of base cell 4 (negative x before wrapping)'] if _d > 0 else ['cell at the north pole'],
                       domain='depth %d: every cell%s (plane cut): %s' % (_d, ', offsets k/1024 with k symbolic in 1..=1023' if part == 1 else '', pn)))
-    _c03.append(H('c03_path_d%d' % _d, 'k_c03_path(%d);' % _d, tiers=Q if _d in (0, 2, 29) else T, timeout=2400, mem_gb=10, unwind=3, unwindset=_c03_us(_d),
-                  stubs=_PLANE_CUT_N('verif_c03'), inputs=[('h', 'u64'), ('t', 'usize'), ('cw', 'bool'), ('sk', 'u8')], replay='c03_cell',
+    _c03.append(H('c03_path_d%d' % _d, 'k_c03_path(%d);' % _d, tiers=Q if _d == 0 else T if _d in (2, 29) else X, timeout=2400, mem_gb=10, unwind=3, unwindset=_c03_us(_d),
+                  stubs=_C03_INTERIOR(), inputs=[('h', 'u64'), ('t', 'usize'), ('cw', 'bool'), ('sk', 'u8')], replay='c03_cell',
                   replay_const={'depth': _d, 'dxk': 512, 'dyk': 512}, covers=['last grid point', 'first path point, clockwise'],
                   domain='depth %d: every cell, every point of the 12-point edge path (both directions, 4 starting vertices) and of the 3x3 grid' % _d))
     for band, bn in ((0, 'npc'), (1, 'eqr'), (2, 'spc')):
-        for b in ((0, 1, 2, 3) if band == 0 else (8, 9, 10, 11) if band == 2 else range(12)):
-            _c03.append(H('c03_image_%s_b%d_d%d' % (bn, b, _d), 'k_c03_image(%d, %d, %d);' % (_d, band, b), tiers=Q if _d in (0, 1) else T, timeout=2400, mem_gb=10, unwind=3,
-                          unwindset=_c03_us(_d), stubs=_PLANE_CUT_N('verif_c03'), inputs=[('x', 'f64'), ('y', 'f64')], replay='c03_pullback', replay_const={'depth': _d},
-                          covers=['a point of the band is mapped to the base cell', 'on a base cell corner / centre line'],
-                          domain='depth %d: every double point of the HEALPix image (x in [0, 8]) with y in the %s band that hash_with_dxdy maps into base cell %d' % (_d, bn, b)))
-        if band != 1:
-            # complement class of a polar band (expected empty; no reachability witness required): makes the split exhaustive
-            _c03.append(H('c03_image_%s_other_d%d' % (bn, _d), 'k_c03_image(%d, %d, 255);' % (_d, band), tiers=Q if _d in (0, 1) else T, timeout=2400, mem_gb=10, unwind=3,
-                          unwindset=_c03_us(_d), stubs=_PLANE_CUT_N('verif_c03'), inputs=[('x', 'f64'), ('y', 'f64')], replay='c03_pullback', replay_const={'depth': _d},
-                          covers=[], domain='depth %d: %s band, points mapped to a base cell outside the cap (expected: none)' % (_d, bn)))
+        for part, pn in ((0, 'inv'), (1, 'border')):
+            for b in ((0, 1, 2, 3, 255) if band == 0 else (8, 9, 10, 11, 255) if band == 2 else range(12)):
+                bname = 'other' if b == 255 else 'b%d' % b
+                _c03.append(H('c03_%s_%s_%s_d%d' % (pn, bn, bname, _d), 'k_c03_image(%d, %d, %d, %d);' % (_d, band, b, part),
+                              tiers=((Q if (_d == 1 and band != 1) else T if _d in (0, 1, 2) else X) if part == 1 else (T if _d == 0 else X)), timeout=(2400 if part == 1 else 3600), mem_gb=8, unwind=3,
+                              unwindset=_c03_us(_d), stubs=_PLANE_CUT_N('verif_c03'), inputs=[('x', 'f64'), ('y', 'f64')], replay='c03_pullback', replay_const={'depth': _d},
+                              covers=(['a point of the band is mapped to the base cell'] if (b != 255 and part == 0) else []),
+                              domain='depth %d: every double point of the HEALPix image (x in [0, 8]) with y in the %s band that hash_with_dxdy maps %s, %s' % (
+                                  _d, bn, 'outside the 4 base cells of the cap (expected: none)' if b == 255 else 'into base cell %d' % b,
+                                  'offsets in [0, 1): sph_coo gives the point back' if part == 0 else 'an offset equal to 1 or below 0: the cell contains the point (plane oracle)')))
 for _d in range(30):
     for band, bn in ((0, 'npc'), (1, 'eqr'), (2, 'spc')):
-        _c03.append(H('c03_range_%s_d%d' % (bn, _d), 'k_c03_range(%d, %d);' % (_d, band), tiers=Q if _d in (0, 1, 29) else T, timeout=1200, mem_gb=6, unwind=3,
+        _c03.append(H('c03_range_%s_d%d' % (bn, _d), 'k_c03_range(%d, %d);' % (_d, band), tiers=Q if (_d == 29 or (_d in (0, 1) and band != 2)) else T, timeout=2400, mem_gb=6, unwind=3,
                       unwindset=_c03_us(_d), stubs=_PLANE_CUT_N('verif_c03'), inputs=[('x', 'f64'), ('y', 'f64')], replay='c03_pullback', replay_const={'depth': _d},
                       covers=['x = 4 (seam or base cell corner line)', 'x = 8'],
                       domain='depth %d: every double point of the HEALPix image (x in [0, 8]) with y in the %s band: cell number in range, offsets in [0, 1]' % (_d, bn)))
@@ -783,9 +787,12 @@ PROPS['C03'] = dict(
     functions=['Layer::center_of_projected_cell', 'Layer::center', 'Layer::sph_coo', 'Layer::vertex', 'Layer::vertices', 'Layer::vertices_map',
                'Layer::path_along_cell_side', 'Layer::path_along_cell_edge', 'Layer::grid', 'Layer::hash_with_dxdy', 'Layer::shift_rotate_scale',
                'discretize', 'Layer::depth0_bits', 'Layer::build_hash', 'Layer::check_hash'],
-    bounds={'quick': 'cells / offsets at depths 0, 1, 2, 29; paths and grid at depths 0, 2, 29 (3 segments per side, 3x3 grid); image totality / containment / inverse at depths 0, 1; range / offset clause alone at depths 0, 1, 29; guards at depth 2',
-            'thorough': 'adds depths 3, 8, 16, 17, 28 (cells, offsets, vertices, paths, image), image at depth 29 and the range / offset clause at every depth 0..=29'},
-    outside='the composition with the real proj / unproj within ulps of a cell border and the 1e-13 rad figure near the poles (they depend on the actual libm values; C17 bounds the pair '
+    bounds={'quick': 'cell centres (plane oracle, hash back with offsets 0.5) and vertices (three accessors) at depths 0, 1, 2, 29; paths and grid at depth 0 (3 segments per side, 3x3 grid); '
+                     'every image point: cell number in range and offsets in [0, 1] up to rounding (north / equatorial bands at depths 0, 1, 29; south band at depth 29); image points of the polar bands '
+                     'with an offset equal to 1 or below 0 (polar base-cell borders, poles, rounding) at depth 1: the cell contains the point (per base cell of the result); guards at depth 2',
+            'thorough': 'adds centres / vertices at depths 3, 8, 16, 17, 28; the interior-offset round trip at depths 0, 1; paths at depths 2, 29; the border-case containment for every band / base cell at depths 0, 1; '
+                        'the sph_coo inverse for generic offsets at depth 0 (3 of the 20 band x base-cell classes; 25+ min each, often undecided); the range clause at depths 2, 8, 16, 28 and the south band at depths 0, 1'},
+    outside='quick tier: "sph_coo inverts hash_with_dxdy" for generic offsets and the interior-offset round trip (real-arithmetic reasoning on the scaled coordinates: thorough tier, and the native oracle on replay); the composition with the real proj / unproj within ulps of a cell border and the 1e-13 rad figure near the poles (they depend on the actual libm values; C17 bounds the pair '
             'separately); the clause "the cell given by hash" (hash_v2 vs hash_with_dxdy) is evaluated by the native oracle on replay only; other path segment counts',
     assumptions=_LIBM_ASSUME + ['plane cut: proj returns an arbitrary point of the HEALPix image (guarantee I of C17, slack 2^-50), unproj is the identity on the plane with its domain assertion kept',
                                 'Layer::d0h_lh_in_d0c (called by hash_with_dxdy on / next to the polar base-cell borders) returns any base cell and in-base-cell coordinates placing the same plane point within 2^-46 (lemmas R and P of C01)'],
@@ -826,7 +833,7 @@ X = ('extended',)
 _KEEP_T = {
     'C01': r'^c01_e2e_d(4|8|16|17|29)$|^c01_r_npc_',
     'C02': r'.',
-    'C03': r'_d(3|8|16|17|28)$|^c03_image_\w+_d(2|29)$|^c03_range_\w+_d(2|3|8|16|17|28)$',
+    'C03': r'^c03_(centre|vertices)_d(3|8|16|17|28)$|^c03_offset_d(0|1)$|^c03_path_d(2|29)$|^c03_border_\w+_d(0|1)$|^c03_inv_(npc_b0|eqr_b5|spc_b10)_d0$|^c03_range_\w+_d(0|1|2|8|16|28)$',
     'C04': r'^c04_pair_d(4|8|16|17|24)$',
     'C06': r'.',
     'C07': r'^(?!c07_(or|xor)_(1_2|2_1)_)',
